@@ -206,7 +206,8 @@ static int check_operand_type(struct instr *instr_buffer, char *all_opd,
 static int operand_tok(struct instr *instr_buffer, char *opds, int opd_pos) {
 
   char *saved_opd = NULL;
-  FAIL_IF(opds[0] == ',');
+  // an operand may not be empty: no leading, doubled or trailing comma
+  FAIL_IF(opds[0] == ',' || opds[strlen(opds) - 1] == ',');
   // get the 1st operand
   char *all_opd = strtok_r(opds, ",", &saved_opd);
   check_for_keyword(instr_buffer, all_opd, opd_pos);
